@@ -69,3 +69,22 @@ plan("C14", [("lifecycle", 6, 40), ("valset", 2, 10)], tests=["TestC14Matrix"],
           "each as a real signed transaction alone in its block, judged by an authorization table from the statement; rejected => empty transaction-level diff "
           "of the provider store; accepted validator messages may only touch keys of the signer's validator; ownership never changes in a cell that is not a transfer; "
           "plus the standing invariant (Top-N => owned by governance and within 50..100) after Begin/EndBlock of every block of every world; distinct = matrix cell")
+
+plan("C05", [("keys", 10, 70), ("valset", 2, 12), ("slash", 2, 10)],
+     minobs={"assignment-attempts": 300, "assignments-rejected": 80, "assignments-accepted": 80, "validator-creations": 8},
+     rule="every operator-signed key assignment / opt-in-with-key / validator creation is predicted (accept/reject) by a shadow registry written from the "
+          "documented rules (sequential model inside a block) and the registry is compared entry by entry with the provider's index, forward map and provider "
+          "keys after every block (injectivity); small key pool so collisions are frequent; distinct = (relation of the key to existing ones, phase)")
+
+plan("C06", [("keys", 10, 70), ("slash", 4, 30), ("valset", 2, 12)],
+     minobs={"keys-replaced-on-launched-consumer": 15, "resolutions-before-deadline": 200, "replaced-keys-pruned": 10},
+     rule="shadow table (consumer, key) -> (validator, replaced at, deadline = replaced + unbonding in force) checked against the provider's index after every "
+          "block: retained while block time < deadline, gone in the first block whose time >= deadline, provider keys resolve to themselves unless re-assigned; "
+          "time steps aim at deadlines (exactly, 1ns before, 1ns after); punishments through replaced keys are judged by the C08 monitor in the slash worlds; "
+          "distinct = offset class to the deadline (retained / pruned)")
+
+plan("C20", [("lifecycle", 8, 60), ("slash", 6, 40)],
+     minobs={"changes-applied": 20, "requests:queued": 20, "requests:replaces-pending": 5, "requests:prelaunch-immediate": 10, "downtime-punishments-compared": 5},
+     rule="shadow (current, pending, due) per consumer stepped by accepted requests (partial requests merged, equal-to-current cancels, later replaces) and by "
+          "block time (<=200 per block, schedule order); compared with parameters in force, queued record and raw schedule after every block; punishments "
+          "(jail duration, slash fraction at the staking boundary) compared with the parameters in force; distinct = request kind x partial, apply offset class")
